@@ -343,6 +343,10 @@ Loop:
 					break Loop
 				case ActionSkip:
 					if !isLeaving {
+						if sstack == nil {
+							// the root itself was skipped: nothing left to visit
+							break Loop
+						}
 						_, path = pop(path)
 						continue
 					}
